@@ -7,7 +7,7 @@
 3. Validation of the translator's table (the dynamic half of the tie): twin runs of the training
    routines in two fresh processes with equal seeds, identically constructed networks / environments, but
    different ambient conditions (PYTHONHASHSEED, global numpy / random state, shifted time.time, XLA
-   intra-op thread count); digests of parameters, buffers, counters and logged statistics (minus the
+   intra-op thread count, and - variant B - an earlier call of the same routine in the same process); digests of parameters, buffers, counters and logged statistics (minus the
    time field) must be bit-identical; a third run with another training seed must differ in the parameters.
 """
 import concurrent.futures as cf
@@ -40,6 +40,9 @@ def child_cmd(routine, seed, variant, out, init_seed):
         "PYTHONPATH": common.REPO, "PYTHONHASHSEED": hs, "JAX_PLATFORMS": "cpu", "XLA_FLAGS": xla,
         "OMP_NUM_THREADS": "1", "OPENBLAS_NUM_THREADS": "1", "MKL_NUM_THREADS": "1",
         "TF_CPP_MIN_LOG_LEVEL": "3", "PYTHONDONTWRITEBYTECODE": "1", "MUJOCO_GL": "egl",
+        # variant B additionally has a history inside its process: the same routine is first run once with another seed
+        # (result discarded); state kept across calls (mutable defaults, module globals, caches) then shows as a difference
+        "C09_PRIOR_RUN": "1" if variant == "B" else "0",
     }
     cmd = ["/venv/bin/python", CHILD, routine, str(seed), str(amb), out, str(init_seed)]
     return cmd, env
@@ -57,7 +60,7 @@ def run_child(job):
     res = None
     if rc == 0 and os.path.exists(out):
         res = json.load(open(out))
-    shell = " ".join(f"{k}={v!r}" for k, v in env.items() if k in ("PYTHONPATH", "PYTHONHASHSEED", "XLA_FLAGS", "JAX_PLATFORMS")) \
+    shell = " ".join(f"{k}={v!r}" for k, v in env.items() if k in ("PYTHONPATH", "PYTHONHASHSEED", "XLA_FLAGS", "JAX_PLATFORMS", "C09_PRIOR_RUN")) \
         + " " + " ".join(cmd[:5] + [f"/tmp/C09-{routine}-{variant}.json"] + cmd[6:])
     return {"routine": routine, "variant": variant, "seed": seed, "rc": rc, "stderr": err, "result": res,
             "wall": round(time.time() - t, 1), "cmd": shell}
@@ -164,7 +167,8 @@ def main(chk):
                 "values_A": {k: da.get(k) for k in dk[:20]}, "values_B": {k: db.get(k) for k in dk[:20]},
                 "run_A": rs["A"]["cmd"], "run_B": rs["B"]["cmd"],
                 "ambient_A": {"PYTHONHASHSEED": VARIANTS["A"][0], "global numpy/random seed and time shift id": VARIANTS["A"][1], "XLA_FLAGS": VARIANTS["A"][2]},
-                "ambient_B": {"PYTHONHASHSEED": VARIANTS["B"][0], "global numpy/random seed and time shift id": VARIANTS["B"][1], "XLA_FLAGS": VARIANTS["B"][2]},
+                "ambient_B": {"PYTHONHASHSEED": VARIANTS["B"][0], "global numpy/random seed and time shift id": VARIANTS["B"][1], "XLA_FLAGS": VARIANTS["B"][2],
+                              "C09_PRIOR_RUN": "1 (the routine was called once before, with seed+7, in the same process)"},
                 "how_to_replay": "run both commands (fresh processes) and compare the 'digest' objects of the two JSON files",
             }
             if paths:
@@ -210,7 +214,8 @@ def main(chk):
         rule=(f"graph: every .py under rl_blox translated ({st.get('functions', '?')} functions, {st.get('roots', '?')} entry points), "
               f"ambient_free decided by vm_compute on the regenerated graph; twin runs: "
               f"{'every routine' if chk.tier != 'quick' else 'seed-rotated third of the 24 routines (index+seed divisible by 3)'}"
-              f" x (2 ambient conditions + 1 other training seed), small configurations with updates; distinct = routines compared"),
+              f" x (2 ambient conditions, one of them after an earlier in-process call of the same routine, + 1 other training seed), small "
+              f"configurations with updates; distinct = routines compared"),
         assumptions=[
             "PARTIAL: proved = no syntactically visible ambient source is reachable from any entry point (all seeds, all configurations)",
             "trusted: the translator harness/c09_translate.py, its ambient table and allowed-library list (validated by the twin runs only)",
